@@ -115,6 +115,7 @@ PROPS = {
         "level": "proof",
     },
     "C05": {
+        "extra_modules": ["C05Lit"],
         "gens": [{"name": "C05", "quick": 5000, "thorough": 20000}, {"name": "sqrtenum", "quick": 10000, "thorough": 10000, "single_shard": True}],
         "nontrivial": {"inexact", "perfect-square", "special", "nan"},
         "rule": ARITH_RULE + "specification = Nat.sqrt of the scaled operand + sticky, rounded once; non-trivial = inexact root, perfect square, special operand or negative operand",
